@@ -90,6 +90,11 @@ MUTANTS = [
      "                let rust_node", "found definition read under the referring schema's namespace"),
     ("C10", "R6", DOC, "                doc.current_target_namespace = referring;\n", "", "namespace of the found definition stays current"),
     ("C10", "R6", DOC, "                doc.current_target_namespace = referring;\n", "                doc.current_target_namespace = doc.current_target_namespace.clone();\n", "restore of the value just set"),
+    # round 9 rules
+    ("C10", "R3", DOC, "if let Some(known) = self.target_namespaces.iter().find(|ns| ns.namespace == namespace) {", "if let Some(known) = self.target_namespaces.iter().find(|ns| ns.namespace.trim_end_matches('/') == namespace.trim_end_matches('/')) {", "namespace names compared without a trailing slash"),
+    ("C10", "R3", DOC, "pub fn find_namespace(&self, url: &str) -> Option<&Rc<Namespace>> {\n        self.namespaces.iter().find(|ns| ns.namespace == url)", "pub fn find_namespace(&self, url: &str) -> Option<&Rc<Namespace>> {\n        self.namespaces.iter().find(|ns| ns.namespace.eq_ignore_ascii_case(url))", "namespace names compared without case"),
+    ("C05", "R4", SVC, "let service_name = as_type_name(&self.name);", "let service_name = format!(\"{}Client\", as_type_name(&self.name));", "client type gets a suffix"),
+    ("C04", "R2", FIELD, "max_occurs.parse::<u64>().is_ok_and(|n| n > 1)", "max_occurs.parse::<u16>().is_ok_and(|n| n > 1)", "maxOccurs read into 16 bits"),
     ("C14", "R2", FIELD, '        "match" => "r#match",\n', "", "keyword row deleted"),
     ("C14", "R1", RESTR, 'writeln!(writer, "      {value:?}.to_string(),")?;', 'writeln!(writer, "      \\"{value}\\".to_string(),")?;', "enumeration unescaped"),
     ("C14", "R1", WRITER, "        for line in comment.split(['\\n', '\\r']) {", "        for line in comment.split('\\n') {", "CR in doc comment"),
